@@ -79,6 +79,21 @@ def reuse_histories(run):
     mod = importlib.util.module_from_spec(spec)
     spec.loader.exec_module(mod)
     for toast in (False, True):
+        for lv1, lv2 in ((1, 2), (3, 0)):
+            nm = "reuse-long-history[%s,%d->%d]" % ("TOAST" if toast else "TAN", lv1, lv2)
+            try:
+                ok = mod.chk_reuse_long_history(toast, lv1, lv2)
+                err = None
+            except Exception as e:
+                ok, err = False, "%s: %s" % (type(e).__name__, e)
+            if ok:
+                run.ob(nm, "confirmed", "execution", "fresh, reuse, override with a changed input, reuse: the returned builder == index_rel.wtml after every call")
+                run.replays += 1
+            else:
+                run.violation(nm, "fits_tiler.py:FitsTiler.tile:%s" % nm, "FitsTiler.tile() over the history fresh / reuse / override with a changed input / reuse: a returned builder disagrees with the index_rel.wtml in the directory%s" % ((" -- " + err) if err else ""),
+                              "import sys\nsys.path.insert(0, %r)\nimport importlib.util\nspec = importlib.util.spec_from_file_location('h', %r)\nh = importlib.util.module_from_spec(spec); spec.loader.exec_module(h)\n"
+                              "sys.exit(0 if h.chk_reuse_long_history(%r, %r, %r) else 1)\n" % (str(__import__("vlib.core").core.VERIF), HARNESS, toast, lv1, lv2), "execution")
+    for toast in (False, True):
         for history in (0, 1, 2):
             for levels in (0, 4):
                 nm = "reuse-history[%s,%s,levels=%d]" % ("TOAST" if toast else "TAN", ["fresh", "reused", "override"][history], levels)
@@ -108,7 +123,7 @@ def check(run):
     run.uses(tp.PyramidIO.__init__, tp.PyramidIO.tile_path, core_u(tp.PyramidIO, "_tile_path_LsYsYX"), core_u(tp.PyramidIO, "_tile_path_LXY"), tp.PyramidIO.get_path_scheme,
              tb.Builder.__init__, tb.Builder.toast_base, tb.Builder.write_index_rel_wtml, tb.Builder.create_wtml_folder, tft.FitsTiler.tile, core_u(tft.FitsTiler, "_tile_toast"))
     run.bound(fields="level / x / y as decimal strings of <= 2 digits (symbolic strings); positions n <= 12 for the integer rendering", schemes="L/Y/YX and LXY", formats="png, jpg, npy, fits",
-              histories="fresh, repeated, repeated with override x TAN / TOAST",
+              histories="fresh, repeated, repeated with override x TAN / TOAST; the four-call history fresh / reuse / override with a changed input / reuse in one process",
               study_tile_format="symbolic image sizes / pixels (as C08), image default format != pyramid default format")
     run.assume("the WWT client expands a URL template by substituting {1} -> level, {2} -> x, {3} -> y (modelled)",
                "the tiling work inside FitsTiler.tile() is replaced by a stub that populates the builder as the real methods do; the WTML is written and parsed by the real wwt_data_formats code in a scratch directory",
